@@ -785,9 +785,24 @@ class Interp(ExtMixin):
             return
         for st1, f in self.ev(st, n.func):
             args_nodes = n.args
-            if any(isinstance(a, ast.Starred) for a in args_nodes):
-                raise Unsupported("star args")
-            for st2, args in self.ev_list(st1, list(args_nodes)):
+            star_at = [k for k, a in enumerate(args_nodes) if isinstance(a, ast.Starred)]
+            plain_nodes = [a.value if isinstance(a, ast.Starred) else a for a in args_nodes]
+            for st2, args in self.ev_list(st1, list(plain_nodes)):
+                if star_at:
+                    ex = []
+                    for k, v in enumerate(args):
+                        if k in star_at:
+                            if isinstance(v, tuple):
+                                ex.extend(v)
+                            elif isinstance(v, PList):
+                                ex.extend(v.items)
+                            elif hasattr(v, "star_arg"):
+                                ex.append(v)
+                            else:
+                                raise Unsupported("star args of symbolic sequence")
+                        else:
+                            ex.append(v)
+                    args = ex
                 kwn = [k.arg for k in n.keywords]
                 if any(k is None for k in kwn):
                     raise Unsupported("**kwargs call")
@@ -2007,7 +2022,7 @@ class Interp(ExtMixin):
         self.n_paths = n_paths
         return self.obligations
 
-    def exec_function(self, con, args, ghost=None):
+    def exec_function(self, con, args, ghost=None, pre=None):
         """run the body of the real function of contract `con` from the given argument values (harness mode):
         yields (state, outcome) per path; obligations raised on the way are collected in self.obligations"""
         self.contract = con
@@ -2021,6 +2036,8 @@ class Interp(ExtMixin):
         fr.fnode = fnode
         st.frames.append(fr)
         st.ghost.update(ghost or {})
+        for f in pre or []:
+            st.assume(f)
         st.entry = st.snapshot()
         yield from self.exec_block(st, src.body_of(fnode))
 
